@@ -22,7 +22,7 @@ RULE = ("for each driven run (R rounds, K clusters, learnt from a clean run in t
         "(fault kind, round, cluster or phase, pool mode) that was actually reached (the injected fault fired)")
 ASSUMPTIONS = ["children observed through /proc/<pid>/task/*/children while the harness still holds the exception object",
                "a wall-clock watchdog alone never decides a hang: the main thread's stack and the fate of the awaited task are recorded"]
-SHARD_TIMEOUT = {"quick": 600, "thorough": 1800}
+SHARD_TIMEOUT = {"quick": 300, "thorough": 1800}
 EXC_ROT = ["ValueError", "LinAlgError", "MemoryError", "InjectedFault"]
 
 
